@@ -3,6 +3,7 @@ package main
 import (
 	"flag"
 	"fmt"
+	"go/types"
 	"os"
 	"path/filepath"
 	"sort"
@@ -35,6 +36,8 @@ func loadAll(repo string) (*Program, *Specs, error) {
 			return nil, nil, err
 		}
 	}
+	indexStructs(p, s)
+	followFunctionRenames(p, s)
 	return p, s, nil
 }
 
@@ -96,7 +99,52 @@ func main() {
 			for _, d := range sourceLocalsOf(p, f) {
 				ls = append(ls, d.Name+": "+d.Type)
 			}
-			fmt.Printf("%s\t%s\t%s\t%s\n", spec.File, strings.TrimPrefix(k, spec.Pkg+"."), strings.Join(ns, ", "), strings.Join(ls, " ;; "))
+			fmt.Printf("%s\t%s\t%s\t%s\t%s\n", spec.File, strings.TrimPrefix(k, spec.Pkg+"."), strings.Join(ns, ", "), strings.Join(ls, " ;; "), declSig(f))
+		}
+	case "funcnames":
+		p, _, err := loadAll("/repo")
+		if err != nil {
+			fmt.Fprintln(os.Stderr, err)
+			os.Exit(2)
+		}
+		by := map[string][]string{}
+		for k, f := range p.Funcs {
+			if strings.Contains(k, "$") || f.Synthetic != "" || strings.Contains(k, "Mock") {
+				continue
+			}
+			pkg, recv, name := splitKey(k)
+			if recv != "" {
+				name = recv + "." + name
+			}
+			by[pkg] = append(by[pkg], name)
+		}
+		for pkg, ns := range by {
+			sort.Strings(ns)
+			fmt.Printf("%s\t%s\n", pkg, strings.Join(ns, " "))
+		}
+	case "structs":
+		// field lists of the repo's struct types (input of tool/addsigs.py)
+		p, _, err := loadAll("/repo")
+		if err != nil {
+			fmt.Fprintln(os.Stderr, err)
+			os.Exit(2)
+		}
+		for _, pk := range p.Pkgs {
+			if pk.Types == nil || !strings.HasPrefix(pk.Types.Path(), repoModule) {
+				continue
+			}
+			sc := pk.Types.Scope()
+			for _, n := range sc.Names() {
+				if tn, ok := sc.Lookup(n).(*types.TypeName); ok {
+					if st, ok := tn.Type().Underlying().(*types.Struct); ok && st.NumFields() > 0 && !strings.Contains(n, "Mock") {
+						var fs []string
+						for _, d := range structFields(st, pk.Types) {
+							fs = append(fs, d.Name+": "+d.Type)
+						}
+						fmt.Printf("%s\t%s\t%s\n", relPkg(pk.Types.Path()), n, strings.Join(fs, " ;; "))
+					}
+				}
+			}
 		}
 	case "fvwrites":
 		p, _, err := loadAll("/repo")
